@@ -73,3 +73,30 @@ for _s in SHAPES:
 sim_unit("hier", False, ("mu",))
 sim_unit("hier", True, ("tau",))
 sim_unit("flat", False, ("y",))
+
+
+@unit("C17.sample_shape", "C17", [f"{M}::Model.simulate"], assumptions=["value of rank 3; event rank 0/1, batch rank 0/1 (the four combinations)"])
+def u_sample_shape(ip):
+    """the sample shape requested from the distribution is the leading part of the current value's shape that is neither batch nor
+    event shape: value_shape[: rank(value) - rank(batch) - rank(event)] - so drawn values keep the shape of the current value."""
+    from contracts.graph import dist_fn
+    c = ip.ctx
+    install_graph_models(ip)
+    dims = tuple(c.fresh(f"n{i}", Int) for i in range(3))
+    ip.models["jax.numpy.asarray"] = lambda ip_, x, *a, **k: PyObj("arr", shape=dims, value=x)
+    ip.models["jax.random.split"] = lambda ip_, key, num=2: [ip_.uf("split", ip_.to_U(key), z3.IntVal(i)) for i in range(ip_.conc_int(num))]
+    for ev, ba in (((), ()), ((dims[2],), ()), ((), (dims[2],)), ((dims[2],), (dims[1],))):
+        g = G(ip)
+        got = {}
+
+        def fam(ip_, *a, **k):
+            d = ip_.call(dist_fn("S", event_shape=ev, batch_shape=ba), list(a), k)
+            d.attrs["sample"] = PyFn(lambda ip2, shape, seed=None: (got.__setitem__("shape", shape), z3.Const("drawn", U))[1], "sample")
+            return d
+
+        y = g.var("y", dist=ip.call(g.Dist, [PyFn(fam, "S")], {}))
+        model = g.build(y)
+        ip.call(method(ip, model, "simulate"), [z3.Const("seed", U)], {})
+        want = dims[: 3 - len(ev) - len(ba)]
+        tag = f".event{len(ev)}.batch{len(ba)}"
+        c.oblige("sample_shape_is_leading_part" + tag, isinstance(got.get("shape"), tuple) and len(got["shape"]) == len(want) and all(a is b for a, b in zip(got["shape"], want)))
